@@ -87,3 +87,21 @@ Proof.
   unfold gen_file_calc, calculate_file_body, file_calc.
   destruct n as [c| |]; cbn [fexec]; [apply generated_calc_is_calc | reflexivity | reflexivity].
 Qed.
+
+(* ---- back ends whose handles share a reading position ---- *)
+Lemma sh_step_content rw f o : sh_content (sh_step rw f o) = sh_content f.
+Proof. destruct o; destruct rw; reflexivity. Qed.
+
+Lemma sh_run_content rw ops : forall f, sh_content (fold_left (sh_step rw) ops f) = sh_content f.
+Proof.
+  induction ops as [|o r IH]; intros f; [reflexivity|].
+  cbn [fold_left]. rewrite IH. apply sh_step_content.
+Qed.
+
+Lemma sh_rewound_handle_delivers_content f : fst (sh_read_all (sh_open true f)) = sh_content f.
+Proof. unfold sh_read_all, sh_read, sh_open. cbn. apply firstn_all. Qed.
+
+(* without the rewind: after one complete read nothing is left for the next handle *)
+Lemma sh_unrewound_refuted :
+  exists c, c <> [] /\ fst (sh_read_all (sh_open false (sh_step false (mkSh c 0) ShHash))) = [].
+Proof. exists [1%Z; 2%Z]. split; [discriminate | reflexivity]. Qed.
